@@ -14,8 +14,8 @@
 (***************************************************************************)
 EXTENDS Naturals, Sequences, TLC
 CONSTANTS MaxLen, DelOnAllPaths, LiveDecOnInv, FullGetoptReset
-Ops == 0..35
-IsEnc(o) == o \in {0, 1, 2, 28}
+Ops == 0..36
+IsEnc(o) == o \in {0, 1, 2, 28, 36}
 IsDecOK(o) == o \in {3, 14, 15, 16, 29}
 IsDecFail(o) == o \in {4, 5, 6, 7, 17, 18, 24, 25, 32}
 IsVer(o) == o \in {8, 9, 19, 20, 21, 22, 23, 26, 27, 30, 31, 33}
